@@ -1560,6 +1560,70 @@ func @F(n int) int {
 	return t
 }`, Drives: []Drive{fn("int", "@F", "3"), fn("int", "@F", "0")}},
 
+	{Name: "ConsumerFirstMatchContinueThenBreak", Props: []string{"C06", "C01"}, Src: `
+// skip-until-first-match: the consumer loop's body ends in an unconditional break, and an earlier 'continue'
+// (directly, or inside a switch) pulls the NEXT element of the same iterator - inside an enclosing native loop
+// to which a mis-bound continue would go instead
+GEN(int) @Nums(xs []int) { for _, x := range xs { vm.E("p"); YIELD(x) }; RETURN }
+func @First(gs [][]int) int {
+	t := 0
+	for _, g := range gs {
+		found := -1
+		RANGEITER(v, :=, GENCALL(int, @Nums, g)) {
+			if v <= 0 { continue }
+			found = v
+			break
+		}
+		t = 10*t + found + 1
+	}
+	return t
+}
+func @FirstEven(gs [][]int) int {
+	t := 0
+	for _, g := range gs {
+		found := -1
+		RANGEITER(v, :=, GENCALL(int, @Nums, g)) {
+			switch { case v%2 == 1: continue }
+			found = v
+			break
+		}
+		t = 10*t + found + 1
+	}
+	return t
+}`, Drives: []Drive{fn("int", "@First", "[][]int{{-1, 0, 7, 8}, {3, 4}, {-5}}"), fn("int", "@FirstEven", "[][]int{{1, 3, 4, 5}, {7}, {2}}"), fn("int", "@First", "nil")}},
+
+	{Name: "YieldFromPackageVarReassigned", Props: []string{"C05", "C02"}, Src: `
+// the delegate is evaluated ONCE, when the YieldFrom statement is reached: re-assigning the package-level
+// variable it was read from while the delegation is suspended at a yield changes nothing
+var @src ITER(int)
+GEN(int) @Count(a, b int) { for i := a; i < b; i++ { YIELD(i) }; RETURN }
+GEN(int) @Deleg() { YIELDFROM(@src); YIELD(-1); RETURN }
+func @F(take int) int {
+	@src = GENCALL(int, @Count, 0, 4)
+	g := GENCALL(int, @Deleg)
+	t := 0
+	for k := 0; k < take && g.MoveNext(); k++ { t = 10*t + g.Current() + 2 }
+	@src = GENCALL(int, @Count, 5, 7) // meant for the next generator
+	for g.MoveNext() { t = 10*t + g.Current() + 2 }
+	return t
+}`, Drives: []Drive{fn("int", "@F", "2"), fn("int", "@F", "0"), fn("int", "@F", "1")}},
+
+	{Name: "IterReturningClosureInGenerator", Props: []string{"C13", "C11", "C05"}, Src: `
+// an ordinary closure inside a generator body that RETURNS an iterator obtained elsewhere is not a generator:
+// its return statements keep their operands
+GEN(int) @Count(n int) { for i := 0; i < n; i++ { YIELD(i) }; RETURN }
+GEN(int) @Outer(big bool) {
+	pick := func() ITER(int) {
+		if big { return GENCALL(int, @Count, 3) }
+		return GENCALL(int, @Count, 1)
+	}
+	YIELD(100)
+	YIELDFROM(pick())
+	var same func(it ITER(int)) ITER(int) = func(it ITER(int)) ITER(int) { return it }
+	RANGEITER(v, :=, same(pick())) { YIELD(10 + v) }
+	RETURN
+}`, Drives: []Drive{gen("int", "@Outer", "true"), gen("int", "@Outer", "false")}},
+
 	{Name: "RangeLoopsOnOneSourceLine", Props: []string{"C15", "C11", "C04"}, Src: `
 // valid Go need not be gofmt-ed: several range loops (each needs a helper variable of its own) start on one line
 GEN(int) @G(xs, ys []int) {
